@@ -678,6 +678,27 @@ func init() {
 					}
 				})
 			}
+			// the argument grammar (@service, !tagged t, !value X, $gontainer) belongs to arguments: the same texts as
+			// parameter values are plain strings - accepted, well-formed as arguments or not
+			for ai, v := range []string{"@one", "@", "@ x", "@gontainer thanks", "@acme/ui-kit", "!tagged tg", "!tagged a b", "!tagged", "!value pk.Var", "!value 1x", "!value", "$gontainer", "$gontainer x", "@one.(*T)", "!todo", "!!str x"} {
+				ai, v := ai, v
+				w.Case(fmt.Sprintf("argument-syntax-in-a-parameter/%d", ai), func(c *C) {
+					cfg := c11base()
+					cfg.Params = append(cfg.Params, Param{"looksLikeArg", v}, Param{"refersToIt", "<%looksLikeArg%>"})
+					cfg.Services = append(cfg.Services, Service{Name: "one", Constructor: P("pk.New"), Args: []any{"%looksLikeArg%"}, Tags: []Tag{{Name: "tg"}}})
+					files := []File{{"c.yaml", cfg.YAML()}}
+					br := w.Build(files)
+					c.Distinct("all", c.ID)
+					c.Distinct("nontrivial", c.ID)
+					if br.Panic != "" {
+						c.Violation("panic", "tool panicked:\n"+br.Panic, FilesMap(files), nil)
+						return
+					}
+					if !br.OK() {
+						c.Violation("parameter-read-as-argument", fmt.Sprintf("parameter value %q has no %%: it is a plain string, yet the configuration is rejected:\n%s", v, strings.Join(ErrorLines(br.Out), "\n")), FilesMap(files), nil)
+					}
+				})
+			}
 			// primitive-only arguments: every primitive kind is accepted in every value position, every composite is rejected
 			{
 				kinds := []struct {
